@@ -196,8 +196,8 @@ Proof. vm_compute. repeat split; reflexivity. Qed.
    COUNT(DISTINCT p.id).  [sql_len_rows]: LEFT JOIN rows, WHERE per joined row, groups by the value of g.id, COUNT(DISTINCT)
    per group, HAVING per group; [py_len_rows]: the comprehension with len = the number of P objects whose group is g.
    ws: conditions over g's own columns; hs: conditions that mention the count and keep the translator's `aggregated` mark
-   (conditions proper, or string values tested for truth).  Known bad ([tr_len] = None: the statement has the aggregate
-   in WHERE and every database rejects it): a numeric value tested for truth, `if len(g.members)`, `if coalesce(g.level,
+   (conditions proper, or string / bool values tested for truth).  Known bad ([tr_len] = None: the statement has the aggregate
+   in WHERE and every database rejects it): an integer value tested for truth, `if len(g.members)`, `if coalesce(g.level,
    count(g.members))` - finding aggregate-truth-test-lands-in-where. *)
 Theorem C01_collection_len_rows_except_known : forall d, modelled d = true ->
   forall params db, pk_ok (tP db) = true -> keys_ok (map (fun g : row => g 0%nat) (tG db)) = true ->
